@@ -27,8 +27,8 @@ import shutil
 import struct
 import tempfile
 from asyncio import (
-    CancelledError, TimeoutError, ensure_future, gather, get_event_loop, sleep,
-    wait_for)
+    CancelledError, TimeoutError, ensure_future, gather, get_event_loop, shield,
+    sleep, wait_for)
 from collections import defaultdict
 from contextlib import AsyncExitStack, asynccontextmanager, contextmanager
 from enum import Enum
@@ -839,8 +839,10 @@ class SyncGroupBase:
                     lasttime = newtime
                     future = self.ec.roundtrip_packet(data, self.packet_index)
             finally:
-                await gather(*[t.set_state(MachineState.SAFE_OPERATIONAL)
-                               for t, rw in self.terminals.items() if rw])
+                # a second cancel must not keep the requests from going out
+                await shield(gather(*[
+                    t.set_state(MachineState.SAFE_OPERATIONAL)
+                    for t, rw in self.terminals.items() if rw]))
 
     def allocate(self):
         self.packet = SterilePacket()
